@@ -4,6 +4,7 @@ import (
 	"encoding/json"
 	"fmt"
 	"os"
+	"runtime/pprof"
 	"strconv"
 	"strings"
 	"time"
@@ -15,15 +16,24 @@ func main() {
 		os.Exit(2)
 	}
 	defer os.RemoveAll(workDir())
+	if pf := os.Getenv("VERIF_CPUPROFILE"); pf != "" {
+		f, _ := os.Create(pf)
+		pprof.StartCPUProfile(f)
+		defer pprof.StopCPUProfile()
+	}
 	switch os.Args[1] {
 	case "run":
-		os.Exit(cmdRun(os.Args[2:]))
+		code := cmdRun(os.Args[2:])
+		pprof.StopCPUProfile()
+		os.RemoveAll(workDir())
+		os.Exit(code)
 	case "replay":
 		code := cmdReplay(os.Args[2])
 		os.RemoveAll(workDir())
 		os.Exit(code)
 	default:
 		code := cmdCheck(os.Args[1:])
+		pprof.StopCPUProfile()
 		os.RemoveAll(workDir())
 		os.Exit(code)
 	}
